@@ -973,9 +973,19 @@ private:
     {
       if (opcode == WsOpcode::TEXT)
       {
+        // RFC 6455 Section 8.1: a text message that is not valid UTF-8 is not
+        // delivered; answer 1007 (same as WebSocketServer::handleDataFrame).
+        WebSocketFrame whole;
+        whole.payload = std::move(payload);
+        if (!whole.isValidUtf8())
+        {
+          sendClose(1007, "Invalid UTF-8");
+          return;
+        }
+
         if (_onTextMessage)
         {
-          std::string text(payload.begin(), payload.end());
+          std::string text(whole.payload.begin(), whole.payload.end());
           _onTextMessage(text);
         }
       }
